@@ -29,7 +29,9 @@ CLAIMED = {
          'flags and per-file compiler verdicts as lazily decided solver booleans; reported/message/saved/cleanup '
          'obligations are formulas over all flags (unexamined ones stay universally quantified). Counter and loop '
          'lemmas (update_stats, stop_condition, get_batches) hold for arbitrary mathematical integers (one inductive '
-         'step). Batches <= 2 programs quick, <= 3 thorough; real _run loop for iterations<=6/12 x batch<=3/5.',
+         'step). Batches <= 2 programs quick, <= 3 thorough; real _run loop for iterations<=6/12 x batch<=3/5. A sequential session of 2 (3) programs through the real '
+         'run()/gen_program/process_cp_transformations/process_ncp_transformations with a stand-in ProgramProcessor that fails at a symbolic point per program and the real '
+         'JavaCompiler parser on a synthesised javac output (crash bit symbolic): reported <=> tool failure or compiler crash, own message per fault, saved test cases, totals, faults file.',
     note='trusted: stand-in compiler with arbitrary verdicts (real parser = C14), real shutil in a temp dir, z3; '
          'process pools, --debug/--rerun/--keep-all outside the claim',
     technique='bounded symbolic execution of hephaestus.py (check_oracle, update_stats, stop_condition, get_batches, '
@@ -90,9 +92,10 @@ CLAIMED = {
          'to_type / get_irrelevant_parameterized_type code they call) under a symbolic RNG on every class table of the bound '
          '(2 classes quick, <=3 thorough; G, H in 5 supertype shapes, optional D<Q> : G<..>), every ground query of depth 1 '
          '(quick: 9 query shapes for the irrelevant search), include_self/concrete_only symbolic; every result judged by the '
-         'declarative relation; usable-type and self-iff-asked obligations.',
+         'declarative relation; usable-type and self-iff-asked obligations. Pools of types, of class declarations and with ready-made instantiations of '
+         'the generic classes; the irrelevant search also on every non-generic built-in type of the language (quick: java, kotlin) and on type variables bounded by one.',
     note='trusted: symbolic RNG contract, declarative relation; a recorded finding covers queries/results outside the exactness class '
-         '(star, top type, opposing projections) where the search inherits the incompleteness of is_subtype',
+         '(star, top type, opposing projections) where the search inherits the incompleteness of is_subtype; a second one covers primitive numeric queries (java/groovy) answered with Number',
     technique='bounded symbolic execution of the search helpers under a symbolic RNG, judged by a declarative reference relation',
     design='4/C09'),
  'C10': dict(
@@ -143,7 +146,8 @@ CLAIMED = {
     text='Bounded exploration of the real TypeErasure over the program families (41 fixtures + generated programs): attribute-level '
          'IR diff before/after must consist only of removed var_type/ret_type, type-argument lists flagged inferable (and the '
          'analysis annotation on call nodes); every removed annotation whose initialiser/body the small reference typer can type must '
-         'be a supertype of (or equal to) the re-inferred type; three targeted obligations on all members incl. 50 template programs: type '
+         'be a supertype of (or equal to) the re-inferred type; targeted obligations on all members incl. about 90 template programs: the erased type arguments of a call that initialises a variable '
+         'must be determined by its arguments or by a kept declared type, type '
          'arguments of an initialising instantiation marked inferable must be determined by constructor parameters or a kept declared type, '
          'reassignments of an erased var must fit the inferred type, a function with an erased return type must not call itself. The dfs feasibility kernel is covered by C19. The solver only selects '
          'members here; the claim is partial (undecided re-inferences are counted in the evidence).',
@@ -154,7 +158,7 @@ CLAIMED = {
  'C04': dict(
     text='Bounded symbolic execution of the real TypeOverwriting over the program families (as generated and after erasure) under a '
          'symbolic RNG (the first 3 (thorough 4) selection draws of transform(): method, node, type parameter; on the template members also the '
-         'first draws of the replacement-type search): when it reports an injected error the IR diff is '
+         'first draws of the replacement-type search; quick: one representative per template family): when it reports an injected error the IR diff is '
          'exactly one declared variable type / return type / type argument, old and new type are unrelated in the declarative relation, '
          'the message names old type, new type (for type arguments: the one actually replaced) and node, the recorded type follows the '
          'declared one, the change is visible in the kotlin/scala text, and the reference typer (where it can type the initialiser/body) '
@@ -165,10 +169,11 @@ CLAIMED = {
     design='4/C04'),
  'C12': dict(
     text='Bounded symbolic exploration over program families: for every member, every perturbation kind (declared variable type, '
-         'declared return type, diamond flag of an instantiation or generic call, finality, an explicit type argument replaced in place) '
+         'declared return type, diamond flag of an instantiation or generic call, finality, an explicit type argument replaced in place, the override marker and the overridability '
+         'of a member (kotlin, scala), the bound of a type parameter) '
          'and every site of that kind (solver integers) the output of one reused translator before/after is compared with a fresh one: the toggle is visible where the target language can '
          'express it, the change starts at the declaration, and user-class tokens of the type occur strictly more often when the '
-         'annotation is carried; on the unperturbed text every declared class/function/field/parameter/variable/type-parameter/'
+         'annotation is carried, an override marker / a bound is printed iff carried, kotlin integer literals of non-default integral types keep their conversion when the declared type is omitted; on the unperturbed text every declared class/function/field/parameter/variable/type-parameter/'
          'supertype name and every string/numeric literal occurs, the type parameters of every function occur in the head of its declaration, and brackets/quotes are balanced.',
     note='trusted: token-level scanners and the per-language expressibility table; semantic equivalence of the text is C02 territory',
     technique='bounded symbolic exploration of single-attribute perturbations with metamorphic comparison of translator output + inventory scan',
